@@ -60,6 +60,11 @@ pub struct Case {
     /// of a zero); empty = none
     #[serde(default)]
     pub nudges: Vec<i8>,
+    /// other state present while the operator runs (component path): 1 = a best-so-far individual that is better than
+    /// every member and not a member itself, 2 = one equal to the worst member's objective, plus iteration / evaluation
+    /// counters; selection works on the population it is given, whatever else the state tracks
+    #[serde(default)]
+    pub distractor: u8,
 }
 
 /// objective value of individual `idx` of the case
@@ -155,6 +160,7 @@ const CL_POP3: u64 = 128;
 const CL_N_EQ_LEN: u64 = 256;
 const CL_NEAR_TIE: u64 = 512;
 const CL_SIGNED_ZEROS: u64 = 1024;
+const CL_DISTRACTOR: u64 = 2048;
 
 impl Check for SelCheck {
     type Case = Case;
@@ -162,7 +168,7 @@ impl Check for SelCheck {
         "C11/selection".into()
     }
     fn classes(&self) -> &'static [&'static str] {
-        &["tied objectives", "duplicate by value", "requested 0", "documented unusable input", "via Selection::select", "+inf objective", "negative objective", "population >= 3", "requested == population size", "distinct objective values within a few representable values of each other", "zeros of both signs"]
+        &["tied objectives", "duplicate by value", "requested 0", "documented unusable input", "via Selection::select", "+inf objective", "negative objective", "population >= 3", "requested == population size", "distinct objective values within a few representable values of each other", "zeros of both signs", "a best-so-far individual that is not a member (and counters) present in the state"]
     }
     fn oracle(&self, c: &Case) -> Outcome {
         let mut cl = 0;
@@ -288,6 +294,16 @@ fn oracle(c: &Case, cl: &mut u64) -> Result<(), Failure> {
         ps.push(source.clone());
         state.insert(ps);
         state.insert(Random::new(c.seed));
+        if c.distractor % 3 != 0 {
+            let fin: Vec<f64> = objs.iter().cloned().filter(|o| o.is_finite()).collect();
+            let v = if c.distractor % 3 == 1 { fin.iter().cloned().fold(0.0, f64::min) - 1.0 } else { fin.iter().cloned().fold(0.0, f64::max) };
+            let mut b = mahf::state::common::BestIndividual::<RealP>::new();
+            b.update(&Individual::new(vec![777.0], v.try_into().unwrap()));
+            state.insert(b);
+            state.insert(mahf::state::common::Evaluations(17));
+            state.insert(mahf::state::common::Iterations(3));
+            *cl |= CL_DISTRACTOR;
+        }
         macro_rules! run_comp {
             ($comp:expr) => {{
                 // one case in six: inside 1-3 nested scopes, the population stack lives outside of them
@@ -622,7 +638,7 @@ fn case_strategy() -> impl Strategy<Value = Case> {
         // ordinary values with occasional nudges
         1 => (prop_oneof![Just(0.0f64), Just(1.0)], proptest::collection::vec(-2i8..3, 1..5)).prop_map(|(b, n)| (1.0, b, n, false)),
     ];
-    (op_strategy(), pop_strategy(), prop_oneof![Just(1.0), Just(1e-6), Just(1e6), Just(0.25)], any::<u64>(), any::<bool>(), 0u8..3, any::<u8>(), fine).prop_map(|(op, mut pop, scale, seed, direct, below, fit, (mult, base, nudges, finite_only))| {
+    (op_strategy(), pop_strategy(), prop_oneof![Just(1.0), Just(1e-6), Just(1e6), Just(0.25)], any::<u64>(), any::<bool>(), 0u8..3, (any::<u8>(), prop_oneof![2 => Just(0u8), 1 => 1u8..3]), fine).prop_map(|(op, mut pop, scale, seed, direct, below, (fit, distractor), (mult, base, nudges, finite_only))| {
         let scale = scale * mult;
         if finite_only {
             for p in pop.iter_mut() {
@@ -639,7 +655,7 @@ fn case_strategy() -> impl Strategy<Value = Case> {
             Op::CloneSingle(_) if fit % 2 == 0 => pop.truncate(1),
             _ => {}
         }
-        Case { op, pop, scale: Fb::of(scale), seed, direct, below, base: Fb::of(base), nudges }
+        Case { op, pop, scale: Fb::of(scale), seed, direct, below, base: Fb::of(base), nudges, distractor }
     })
 }
 
